@@ -168,7 +168,7 @@ impl Shared {
 
     fn deliver_to_broker(&mut self, c: usize, pkts: Vec<(mr::CPacket, Vec<u8>)>) {
         for (pkt, raw) in pkts {
-            self.log(|| format!("  wire c{} -> broker {} {}", c, pkt.name(), mr::hex(&raw)));
+            self.log(|| format!("  wire c{} -> broker {} {}", c, pkt.name(), mr::hex_short(&raw)));
             self.oracle.reached_broker(&pkt, &raw);
             self.broker.on_client_packet(&pkt);
             if matches!(pkt, mr::CPacket::Disconnect { .. }) {
@@ -225,9 +225,10 @@ impl Shared {
             A::All | A::Part(_) => {
                 let n = match opts[i] {
                     A::Part(k) => k,
+                    _ if self.cfg.io.max_write > 0 => buf.len().min(self.cfg.io.max_write),
                     _ => buf.len(),
                 };
-                self.log(|| format!("  io c{} write {}/{} {}", c, n, buf.len(), mr::hex(&buf[..n])));
+                self.log(|| format!("  io c{} write {}/{} {}", c, n, buf.len(), mr::hex_short(&buf[..n])));
                 if n < buf.len() {
                     if buf.len() >= 130 {
                         self.oracle.reach(5);
@@ -372,7 +373,7 @@ impl Shared {
                 for slot in buf.iter_mut().take(n) {
                     *slot = self.conns[c].inbound.pop_front().unwrap();
                 }
-                self.log(|| format!("  io c{} read {} {}", c, n, mr::hex(&buf[..n])));
+                self.log(|| format!("  io c{} read {} {}", c, n, mr::hex_short(&buf[..n])));
                 if n < avail && self.conns[c].emitted.front().is_some_and(|f| f.2 >= 130) {
                     self.oracle.reach(6);
                 }
@@ -424,14 +425,14 @@ impl Shared {
 
     fn push_inbound(&mut self, c: usize, pkt: SPacket) {
         let raw = pkt.encode();
-        self.log(|| format!("  broker -> c{} {} {}", c, pkt.name(), mr::hex(&raw)));
+        self.log(|| format!("  broker -> c{} {} {}", c, pkt.name(), mr::hex_short(&raw)));
         self.oracle.broker_emit(c, &pkt);
         self.conns[c].inbound.extend(raw.iter().copied());
         self.conns[c].emitted.push_back((pkt, raw.len(), raw.len()));
     }
 
     fn push_raw(&mut self, c: usize, raw: &[u8]) {
-        self.log(|| format!("  broker -> c{} raw {}", c, mr::hex(raw)));
+        self.log(|| format!("  broker -> c{} raw {}", c, mr::hex_short(raw)));
         self.conns[c].inbound.extend(raw.iter().copied());
     }
 
@@ -2052,7 +2053,7 @@ fn compare_with_twin(cfg: &Rc<Cfg>, r: &mut RunResult, record: bool) {
         .collect();
     let relevant = match mode {
         Twin::Cancel => !r.cancelled.is_empty(),
-        Twin::Fragment => r.spent > 0,
+        Twin::Fragment => r.spent > 0 || cfg.io.max_write > 0,
     };
     if !relevant {
         return;
@@ -2069,6 +2070,9 @@ fn compare_with_twin(cfg: &Rc<Cfg>, r: &mut RunResult, record: bool) {
     tcfg.props = vec![];
     tcfg.twin = None;
     tcfg.prune = false;
+    if mode == Twin::Fragment {
+        tcfg.io.max_write = 0;
+    }
     let tcfg = Rc::new(tcfg);
     let t = run_inner(&tcfg, &[], &[], None, record, Some(script));
     if let (Some(trace), Some(tt)) = (&mut r.trace, &t.trace) {
@@ -2085,7 +2089,7 @@ fn compare_with_twin(cfg: &Rc<Cfg>, r: &mut RunResult, record: bool) {
             r.violations.push(Violation { prop, sig, detail });
         }
     };
-    let hexes = |v: &Vec<Vec<u8>>| v.iter().map(|b| mr::hex(b)).collect::<Vec<_>>().join(" ");
+    let hexes = |v: &Vec<Vec<u8>>| v.iter().map(|b| mr::hex_short(b)).collect::<Vec<_>>().join(" ");
     match mode {
         Twin::Cancel => {
             let ops: Vec<String> = r
@@ -2123,8 +2127,8 @@ fn compare_with_twin(cfg: &Rc<Cfg>, r: &mut RunResult, record: bool) {
                 flag("C15", "results-differ", &ctx, format!("operation results {:?}, unfragmented run {:?}", r.results, t.results));
             }
             if r.tx != t.tx {
-                let a: Vec<String> = r.tx.iter().map(|b| mr::hex(b)).collect();
-                let b: Vec<String> = t.tx.iter().map(|b| mr::hex(b)).collect();
+                let a: Vec<String> = r.tx.iter().map(|b| mr::hex_short(b)).collect();
+                let b: Vec<String> = t.tx.iter().map(|b| mr::hex_short(b)).collect();
                 flag("C15", "outbound-stream-differs", &ctx, format!("bytes accepted per connection {:?}, unfragmented run {:?}", a, b));
             }
         }
